@@ -256,6 +256,11 @@ def _shard(shard, nshards, tier, seed):
     progs = programs(tier)
     L = letters()
     work = [(cfg, seq) for cfg in cfgs for seq in progs]
+    # A Z80 file cannot carry MEMPTR (exempt in the property).  Under --cmio, BIT n,(HL) copies MEMPTR bits into
+    # F; if an interrupt routine then pushes AF those bits reach RAM.  Letters with BIT n,(HL) are therefore not
+    # combined with (.z80, --cmio); the final BIT 7,(HL) of the epilogue is covered by the F-bit mask.
+    bit_hl = [i for i, (n, _) in enumerate(L) if n == 'BIT 7,(HL)']
+    work = [(cfg, seq) for cfg, seq in work if not (cfg['fmt'] == 'z80' and cfg['cmio'] and any(i in bit_hl for i in seq))]
     for wi, (cfg, seq) in core.shard_iter(work, shard, nshards):
         n_total = n_for(seq, cfg)
         bad, legs = run_case(cfg, seq, n_total)
@@ -287,7 +292,7 @@ def run(tier, seed):
         exhaustive=True,
         bound='all split points of every generated program; configuration deviations d <= {}'.format(1 if tier == 'quick' else 2),
         assumptions=['both legs start from the same initial SZX file written by skoolkit.snapshot.write_snapshot (common mode)',
-                     'for .z80 mid-run files MEMPTR (and under --cmio the F bits 3/5 that BIT n,(HL) derives from it) is exempt, as in the property'],
+                     'for .z80 mid-run files MEMPTR (and under --cmio the F bits 3/5 that BIT n,(HL) derives from it) is exempt, as in the property; letters with BIT n,(HL) are not combined with (.z80, --cmio) because an interrupt routine pushing AF would carry those bits into RAM'],
         required_guards=[],
     )
     return stats, meta
